@@ -11,6 +11,7 @@ CONSTANTS
  Cancels = TRUE
  Failures = TRUE
  Timeouts = TRUE
+ Resumes = FALSE
  Evictions = FALSE
 CONSTRAINT Bound
 INVARIANT Inv_C01
